@@ -624,6 +624,13 @@ func (i *interpreter) vndExternal(name string) externalFn {
 		return func(fr *frame, a []value) value { fr.i.requireJoined(a[0].(string)); return nil }
 	case "NoRaces":
 		return func(fr *frame, a []value) value { fr.i.noRaces(a[0].(string)); return nil }
+	case "StopIfViolated":
+		return func(fr *frame, a []value) value {
+			if len(fr.i.res.Violations) > 0 {
+				panic(engineAbort{kind: "violation", msg: "schedule query failed"})
+			}
+			return nil
+		}
 	case "SalText":
 		return func(fr *frame, a []value) value {
 			i := fr.i
